@@ -169,6 +169,61 @@ def run(ctx, model_available=True):
                     failures.append({"kind": "corr", "sig": None, "desc": f"legacy layout differs: model {json.dumps(mleg)[:300]} expected {json.dumps(legacy_of(parsed, True, True))[:300]}", "case": {"ops": ops}})
             except Exception as e:  # noqa: BLE001
                 failures.append({"kind": "corr", "sig": None, "desc": f"legacy output unparsable: {e}", "case": {"ops": ops}})
+    # one Persistence object over its life: a save that fails (directory missing / not writable),
+    # storage recovers, save again (registry unchanged or changed), then load
+    import os
+
+    from aiomysensors import exceptions as _ex
+    from aiomysensors.persistence import Persistence
+
+    sessions = 0
+    for ops in hs[:: max(1, len(hs) // ctx.budget(40, 400))]:
+        im = run_ops(ops)
+        nodes = im.gw.nodes
+        if not nodes:
+            im.close()
+            continue
+        for scenario in ("fail-then-save", "save-change-save", "save-save"):
+            sessions += 1
+            sub = os.path.join(files.dir, f"sub{sessions}")
+            path = os.path.join(sub, "p.json")
+            p = Persistence(nodes, path)
+            try:
+                if scenario == "fail-then-save":
+                    try:
+                        files.loop.run_until_complete(p.save())
+                        first = "saved"
+                    except _ex.PersistenceWriteError:
+                        first = "write error"
+                    os.mkdir(sub)
+                    files.loop.run_until_complete(p.save())
+                elif scenario == "save-change-save":
+                    os.mkdir(sub)
+                    files.loop.run_until_complete(p.save())
+                    k0 = next(iter(nodes))
+                    nodes[k0].sketch_name = nodes[k0].sketch_name + "!"
+                    nodes[k0].battery_level = (nodes[k0].battery_level + 1) % 101
+                    files.loop.run_until_complete(p.save())
+                else:
+                    os.mkdir(sub)
+                    files.loop.run_until_complete(p.save())
+                    files.loop.run_until_complete(p.save())
+            except Exception as e:  # noqa: BLE001
+                failures.append({"kind": "oracle", "sig": "C13:session", "desc": f"{scenario}: {type(e).__name__}: {e}", "case": {"ops": ops, "scenario": scenario}})
+                continue
+            loaded: dict = {}
+            q = Persistence(loaded, path)
+            try:
+                files.loop.run_until_complete(q.load())
+                got = reg_plain(loaded)
+            except Exception as e:  # noqa: BLE001
+                got = f"{type(e).__name__}"
+            if got != reg_plain(nodes):
+                failures.append({"kind": "oracle", "sig": "C13:session",
+                                 "desc": f"{scenario} on one Persistence object: the file afterwards does not load to the registry that was saved (got {str(got)[:200]})",
+                                 "case": {"ops": ops, "scenario": scenario}})
+        im.close()
+    dist["persistence_sessions"] = sessions
     # the two fixtures of the repository's own tests
     import glob
 
